@@ -239,6 +239,25 @@ theorem crashFrom_eq (p : Params) (s : State) (ms : List Mut) (jc j k : Nat) (h 
     rw [← applyMuts_append, ← hsplit]
   simp only [crashFrom, crashAt, this]
 
+/-- the torn variants of a write after which the store still recovers (proved in
+`CrashProps.lean`): every prefix of a payload write (the slot that makes the record visible is
+written afterwards), and a slot write cut inside its first field, the term (the index is still
+0: the slot is still empty).  A slot write cut later, a zeroing write cut anywhere and a cut
+inside the first 32 bytes of a new file are *not* safe (`torn_slot_breaks`, `torn_zero_breaks`
+in `CrashProps.lean`; finding `torn_write_*`). -/
+def safeTorn (p : Params) (s : State) (m : Mut) : List State :=
+  match m with
+  | .pay _ _ d => (List.range (4 + d.size)).filterMap (applyTorn p s m)
+  | .slot _ _ _ => (List.range 9).filterMap (applyTorn p s m)
+  | _ => []
+
+/-- every directory a crash inside the mutation list can leave behind, as far as the store
+recovers from it: after each prefix of the list (first element: nothing happened, last: all
+happened), and with the safe torn variants of the next write -/
+def crashStates (p : Params) : State → List Mut → List State
+  | s, [] => [s]
+  | s, m :: ms => s :: (safeTorn p s m ++ crashStates p (applyMut p s m) ms)
+
 /-- `Init` on a crash image -/
 def recover (p : Params) (s : State) : Except Err State :=
   if s.panicked then .error .initFailed else reopen p s
